@@ -302,3 +302,18 @@ EQUIVS = [
     E("c16-eq-kind-positive", VAL, "    if event.kind not in config.valid_kinds:\n        raise StorageError(f\"invalid: kind={event.kind} not allowed\")",
       "    if event.kind in config.valid_kinds:\n        return\n    raise StorageError(f\"invalid: kind={event.kind} not allowed\")"),
 ]
+
+# functions whose syntactic mutants are used for the thorough tier's sensitivity figure (sa/automut.py)
+ANCHORS = [
+    "nostr_relay.validators:is_not_too_large",
+    "nostr_relay.validators:is_recent",
+    "nostr_relay.validators:is_certain_kind",
+    "nostr_relay.validators:is_author_whitelisted",
+    "nostr_relay.validators:is_author_blacklisted",
+    "nostr_relay.validators:is_pow",
+    "nostr_relay.validators:is_not_hellthread",
+    "nostr_relay.validators:is_service_event",
+    "nostr_relay.validators:get_validator",
+    "nostr_relay.dynamic_lists:is_pubkey_allowed",
+    "nostr_relay.dynamic_lists:ListBuilder.run_once",
+]
